@@ -4,6 +4,8 @@ from __future__ import annotations
 import urllib3.util.retry as _R
 import urllib3.util.timeout as _T
 import time as _time
+import queue as _queue
+import threading as _threading
 
 
 class FakeTime:
@@ -39,8 +41,12 @@ def install_clock(fake=None) -> FakeTime:
     if not _saved:
         _saved["T"] = _T.time
         _saved["R"] = _R.time
+        _saved["Q"] = _queue.time
     _T.time = fake
     _R.time = fake
+    # queue.Queue.get(block=True, timeout=...) reads the monotonic clock; CrossHair makes that clock symbolic,
+    # which multiplies every blocking-pool path.  The queue's deadline arithmetic is not under test: constant clock.
+    _queue.time = lambda: 0.0
     return fake
 
 
@@ -48,3 +54,4 @@ def uninstall_clock():
     if _saved:
         _T.time = _saved["T"]
         _R.time = _saved["R"]
+        _queue.time = _saved["Q"]
